@@ -31,7 +31,7 @@ ASSUMPTIONS = ["the registry clause is a monitor on sampled live objects, not a 
                "SimFS implements the BufferedReader/Writer contract"]
 
 FORMAT_WEIGHTS = [(2, "bed3"), (3, "bed6"), (3, "bed12"), (3, "narrowpeak"), (3, "bdg"), (3, "vcf"), (2, "vcfinfo"), (3, "sam"),
-                  (2, "fastq"), (1, "fasta2")]
+                  (2, "fastq"), (1, "fasta2"), (3, "vcfgt")]
 
 
 def generate(ctx):
@@ -122,6 +122,15 @@ def _api():
         s = s + np.arange(len(s)) * 3
         return dt.Interval(["chr1"] * len(s), s, s + 2)
 
+    def intervals_overhang(b, table, fmt):
+        # some intervals start before 0 or stop beyond the chromosome end (2000): the shapes clip() has work to do on
+        if not all(x in fmt.field_names() for x in ("chromosome", "start", "stop")):
+            return None
+        import bionumpy.datatypes as dt
+        s = (np.asarray(table.start) % 1000) * 3 - 400
+        e = s + (np.asarray(table.stop) % 700) + 1
+        return dt.Interval(["chr1"] * len(s), s, e)
+
     def quality_text(b, table, fmt):
         if fmt.layout != "fastq":
             return None
@@ -209,6 +218,9 @@ def _api():
     def f_g_extended(b, x):
         return _gi(b, x).extended_to_size(30).get_data()
 
+    def f_g_extended_clip(b, x):
+        return _gi(b, x).extended_to_size(30).clip().get_data()
+
     def f_g_sorted(b, x):
         return _gi(b, x).sorted().get_data()
 
@@ -271,6 +283,7 @@ def _api():
             ("genome_get_mask", intervals, f_g_mask), ("genome_get_pileup", intervals, f_g_pileup),
             ("genome_merged", intervals, f_g_merged), ("genome_clip", intervals, f_g_clip),
             ("genome_extended_to_size", intervals, f_g_extended), ("genome_sorted", intervals, f_g_sorted),
+            ("genome_clip_overhang", intervals_overhang, f_g_clip), ("genome_extended_clip_overhang", intervals_overhang, f_g_extended_clip),
             ("table_sort_by", intervals, f_t_sort_by), ("table_concatenate", intervals, f_t_concat),
             ("table_replace", intervals, f_t_replace), ("table_reverse", intervals, f_t_reverse),
             ("table_tolist", intervals, f_t_tolist), ("table_mask", intervals, f_t_mask),
